@@ -22,3 +22,13 @@ func solverCmd() []string {
 	}
 	return []string{"z3", "-in"}
 }
+
+// solverDescription names the solver actually used (command line and reported version).
+func solverDescription() string {
+	cmd := solverCmd()
+	ver := "unknown version"
+	if out, err := exec.Command(cmd[0], "--version").Output(); err == nil {
+		ver = strings.TrimSpace(string(out))
+	}
+	return strings.Join(cmd, " ") + " [" + ver + "] (one incremental process per worker, push/pop per path, define-fun per term)"
+}
